@@ -29,6 +29,7 @@ type config struct {
 type run struct {
 	Cfg    config        `json:"config"`
 	Procs  []int         `json:"procs"`
+	Cons   []string      `json:"consumer"` // per entry of procs: "passive" or "writes-into-and-appends-to-returned-objects"
 	Status int           `json:"status"`
 	Err    string        `json:"err,omitempty"`
 	Objs   []pbfwire.Obs `json:"objects"`
@@ -36,7 +37,40 @@ type run struct {
 	Moved  string        `json:"modified_object,omitempty"`
 }
 
-func scan(data []byte, procs int, cf *config) (objs []pbfwire.Obs, status int, errs string, stable bool, moved string) {
+// consume is what the consumer does with an object right after it took its snapshot: nothing
+// (passive), or what a consumer that owns the object may do: overwrite entries of its slices in
+// place and append to them.  Returned objects must not share memory that makes this visible in
+// any other object.
+func consume(o osm.Object) {
+	tag := osm.Tag{Key: "consumer", Value: "appended"}
+	switch v := o.(type) {
+	case *osm.Node:
+		for i := range v.Tags {
+			v.Tags[i].Value = "consumer-overwrote"
+		}
+		v.Tags = append(v.Tags, tag)
+	case *osm.Way:
+		for i := range v.Tags {
+			v.Tags[i].Value = "consumer-overwrote"
+		}
+		v.Tags = append(v.Tags, tag)
+		for i := range v.Nodes {
+			v.Nodes[i].Lat, v.Nodes[i].Lon = 12.5, -12.5
+		}
+		v.Nodes = append(v.Nodes, osm.WayNode{ID: -12345, Lat: 1, Lon: 2})
+	case *osm.Relation:
+		for i := range v.Tags {
+			v.Tags[i].Value = "consumer-overwrote"
+		}
+		v.Tags = append(v.Tags, tag)
+		for i := range v.Members {
+			v.Members[i].Role = "consumer-overwrote"
+		}
+		v.Members = append(v.Members, osm.Member{Type: osm.TypeNode, Ref: -12345, Role: "consumer"})
+	}
+}
+
+func scan(data []byte, procs int, cf *config, active bool) (objs []pbfwire.Obs, status int, errs string, stable bool, moved string) {
 	sc := osmpbf.New(context.Background(), bytes.NewReader(data), procs)
 	defer sc.Close()
 	if cf != nil {
@@ -52,17 +86,24 @@ func scan(data []byte, procs int, cf *config) (objs []pbfwire.Obs, status int, e
 		}
 	}
 	var kept []osm.Object
+	var left []pbfwire.Obs // the state the consumer left the object in
 	for sc.Scan() {
 		o := sc.Object()
 		kept = append(kept, o)
 		objs = append(objs, pbfwire.Snapshot(o))
+		if active {
+			consume(o)
+			left = append(left, pbfwire.Snapshot(o))
+		} else {
+			left = append(left, objs[len(objs)-1])
+		}
 	}
 	stable = true
 	for i, o := range kept {
 		again := pbfwire.Snapshot(o)
-		if !again.Equal(&objs[i]) {
+		if !again.Equal(&left[i]) {
 			stable = false
-			moved = fmt.Sprintf("object %d (%v) changed after it was returned: %+v -> %+v", i, o.ObjectID(), objs[i], again)
+			moved = fmt.Sprintf("object %d (%v) changed after it was returned: %+v -> %+v", i, o.ObjectID(), left[i], again)
 			break
 		}
 	}
@@ -74,6 +115,8 @@ func scan(data []byte, procs int, cf *config) (objs []pbfwire.Obs, status int, e
 
 type fileCase struct {
 	Desc       *pbfgen.FileDesc `json:"desc"`
+	UStatus    int              `json:"unfiltered_status"`
+	UErr       string           `json:"unfiltered_err,omitempty"`
 	Unfiltered []pbfwire.Obs    `json:"unfiltered"`
 	Runs       []run            `json:"runs"`
 	Note       string           `json:"note,omitempty"`
@@ -86,26 +129,39 @@ func buildCase(d *pbfgen.FileDesc, cfgs []config, procsOf func(k int) []int, cla
 		return nil, false, err
 	}
 	fc := &fileCase{Desc: d}
-	un, st, es, _, _ := scan(data, 1, nil)
-	if st != 0 {
+	described := true
+	for _, b := range d.Blocks {
+		if hasPlain(b) {
+			described = false
+		}
+	}
+	un, st, es, _, _ := scan(data, 1, nil, false)
+	if st != 0 && described {
 		return nil, false, fmt.Errorf("unfiltered scan failed: %s", es)
 	}
-	fc.Unfiltered = un
+	fc.Unfiltered, fc.UStatus, fc.UErr = un, st, es
 	for k := range cfgs {
 		cf := cfgs[k]
-		for _, p := range procsOf(k) {
-			objs, st, es, stable, moved := scan(data, p, &cf)
+		for pi, p := range procsOf(k) {
+			// every second run is consumed by the consumer that writes into what it was given
+			active := (pi+k)%2 == 1
+			cons := "passive"
+			if active {
+				cons = "writes-into-and-appends-to-returned-objects"
+			}
+			objs, st, es, stable, moved := scan(data, p, &cf, active)
 			merged := false
 			for i := range fc.Runs {
 				r := &fc.Runs[i]
 				if r.Cfg == cf && r.Status == st && r.Stable == stable && pbfwire.EqualObs(r.Objs, objs) {
 					r.Procs = append(r.Procs, p)
+					r.Cons = append(r.Cons, cons)
 					merged = true
 					break
 				}
 			}
 			if !merged {
-				fc.Runs = append(fc.Runs, run{Cfg: cf, Procs: []int{p}, Status: st, Err: es, Objs: objs, Stable: stable, Moved: moved})
+				fc.Runs = append(fc.Runs, run{Cfg: cf, Procs: []int{p}, Cons: []string{cons}, Status: st, Err: es, Objs: objs, Stable: stable, Moved: moved})
 			}
 		}
 	}
@@ -130,8 +186,13 @@ func buildCase(d *pbfgen.FileDesc, cfgs []config, procsOf func(k int) []int, cla
 	}
 	c.Len(len(d.Blocks))
 	for i, b := range d.Blocks {
-		if err := pbfwire.PutBlockDesc(c, b); err != nil {
-			return nil, false, err
+		if hasPlain(b) {
+			c.Bool(false) // no description: the language has no plain nodes
+		} else {
+			c.Bool(true)
+			if err := pbfwire.PutBlockDesc(c, b); err != nil {
+				return nil, false, err
+			}
 		}
 		tr, err := pbfgen.Parse(payloads[pi+i], pbfgen.BlockSchema)
 		if err != nil {
@@ -141,7 +202,7 @@ func buildCase(d *pbfgen.FileDesc, cfgs []config, procsOf func(k int) []int, cla
 			return nil, false, err
 		}
 	}
-	c.Len(len(fc.Unfiltered))
+	c.Int(int64(fc.UStatus)).Len(len(fc.Unfiltered))
 	for i := range fc.Unfiltered {
 		fc.Unfiltered[i].Put(c, pool)
 	}
@@ -170,8 +231,21 @@ func buildCase(d *pbfgen.FileDesc, cfgs []config, procsOf func(k int) []int, cla
 	return c, applied, nil
 }
 
+func hasPlain(b *pbfgen.Block) bool {
+	for _, g := range b.Groups {
+		for _, it := range g.Items {
+			if it.Node != nil {
+				return true
+			}
+		}
+	}
+	return false
+}
+
+func pred3(t [3]int64) pbfwire.Pred { return pbfwire.Pred{Code: t[0], A: t[1], B: t[2]} }
+
 func randPred(r *rand.Rand) pbfwire.Pred {
-	switch r.Intn(8) {
+	switch r.Intn(10) {
 	case 0:
 		return pbfwire.Pred{Code: 0}
 	case 1:
@@ -183,6 +257,9 @@ func randPred(r *rand.Rand) pbfwire.Pred {
 		return pbfwire.Pred{Code: 3}
 	case 4:
 		return pbfwire.Pred{Code: 4}
+	case 8, 9: // an id range, kept or rejected (ordinary ids are 1..5000 and ascending within a dense group)
+		lo := r.Int63n(5000)
+		return pbfwire.Pred{Code: int64(6 + r.Intn(2)), A: lo, B: lo + r.Int63n(2500)}
 	}
 	return pbfwire.Pred{Code: 5, A: int64(2 + r.Intn(8))}
 }
@@ -281,7 +358,7 @@ var canaries = []canary{
 func main() {
 	a := wire.ParseArgs()
 	w := wire.NewWriter("C08", a.Seed, a.Tier)
-	w.Rule = "one case per generated PBF file (pbfgen.RandomFile, denser groups than C01) scanned unfiltered and under 4-8 configurations (all 8 skip-flag combinations cycling, predicates accept-all/reject-all/id mod k/has-tag/even version/hashed id per element type) x decoder counts from {1,2,3,7,16}, with deep snapshots at return time re-compared at end of scan; non-trivial = some run returns a proper non-empty subsequence"
+	w.Rule = "one case per generated PBF file (pbfgen.RandomFile, denser groups than C01) scanned unfiltered and under 4-8 configurations (all 8 skip-flag combinations cycling, predicates accept-all/reject-all/id mod k/has-tag/even version/hashed id per element type) x decoder counts from {1,2,3,7,16}, with deep snapshots at return time re-compared at end of scan (every second run: the consumer overwrites the slice entries of each object it is handed and appends to them, and the final comparison is against the state it left); files carry first-class zero values and member types outside the enum, every 5th is a headerless restart stream of 2-6 non-empty blocks; predicates also id-range kept/rejected; plus pbfgen.DirectedCorpus under each file's own configuration (incl. plain-node groups, shipped as trees without description); non-trivial = some run returns a proper non-empty subsequence"
 	rng := wire.Rng(a.Seed)
 	nfiles, ncfg, nprocs := int(40*a.Scale), 4, 2
 	if a.Tier == "thorough" {
@@ -297,8 +374,38 @@ func main() {
 	}
 	var jobs []job
 	combo := 0
+	// directed corpus first: each file under its own configuration (all its decoder counts), under the
+	// same predicates without skip flags, and under two random configurations
+	for _, dc := range pbfgen.DirectedCorpusTier(a.Tier == "thorough") {
+		own := config{SkipNodes: dc.SkipNodes, SkipWays: dc.SkipWays, SkipRelations: dc.SkipRelations,
+			Node: pred3(dc.Node), Way: pred3(dc.Way), Relation: pred3(dc.Relation)}
+		noskip := own
+		noskip.SkipNodes, noskip.SkipWays, noskip.SkipRelations = false, false, false
+		cfgs := []config{own, noskip,
+			{SkipNodes: dc.SkipNodes, Node: randPred(rng), Way: randPred(rng), Relation: randPred(rng)},
+			{SkipWays: true, Node: randPred(rng), Way: randPred(rng), Relation: randPred(rng)}}
+		procs := dc.Procs
+		c, _, err := buildCase(dc.Desc, cfgs, func(k int) []int {
+			if k == 0 || a.Tier == "thorough" {
+				return procs
+			}
+			if len(procs) < 2 {
+				return procs
+			}
+			return procs[k%2 : k%2+1]
+		}, "directed:"+dc.Name, nil)
+		if err != nil {
+			fail(err)
+		}
+		w.Add(c)
+		w.Count("directed")
+	}
 	for i := 0; i < nfiles; i++ {
-		opts := pbfgen.Opts{MaxItems: 7, MaxTags: 4, MinBlocks: 1, MaxBlocks: 4}
+		opts := pbfgen.Opts{MaxItems: 7, MaxTags: 4, MinBlocks: 1, MaxBlocks: 4, ZeroPct: 10, UnknownMemberPct: 15}
+		if i%5 == 4 { // a stream that starts with data (restart at an offset): several blocks
+			opts.NoHeader, opts.MinBlocks, opts.MaxBlocks, opts.MinElements = true, 2, 6, 1
+			w.Count("headerless")
+		}
 		switch i % 4 {
 		case 1:
 			opts.Kinds, opts.MaxItems = "d", 12
